@@ -3769,8 +3769,11 @@ class TLSConnection(TLSRecordLayer):
         # negotiate the protocol version for the connection
         high_ver = None
         if ver_ext:
-            high_ver = getFirstMatching(settings.versions,
-                                        ver_ext.versions)
+            # only the versions inside of the configured range are acceptable
+            high_ver = getFirstMatching(
+                [i for i in settings.versions
+                 if settings.minVersion <= i <= settings.maxVersion],
+                ver_ext.versions)
             if not high_ver:
                 for result in self._sendError(
                         AlertDescription.protocol_version,
